@@ -18,6 +18,67 @@ pub(crate) mod vx {
     }
 }
 
+/// A gate a session task passes right after on_established() (initial dump buffered, peer
+/// channel registered, nothing flushed yet).  Unarmed gates are no-ops.  The C01 harness arms
+/// one to hold the session at exactly that point while RIB changes queue up, i.e. to produce
+/// the "change delivered before the first flush of the initial dump" interleaving.
+#[allow(dead_code)]
+pub(crate) mod gate {
+    use std::collections::HashMap;
+    use std::net::IpAddr;
+    use std::sync::{Arc, Mutex};
+
+    struct G {
+        armed: bool,
+        parked: bool,
+        open: bool,
+        notify: Arc<tokio::sync::Notify>,
+    }
+    // key: (address of the daemon's TableManager, neighbour address) - explorations run in parallel
+    static GATES: Mutex<Option<HashMap<(usize, IpAddr), G>>> = Mutex::new(None);
+
+    pub(crate) fn arm(tables: usize, addr: IpAddr) {
+        let mut g = GATES.lock().unwrap();
+        g.get_or_insert_with(HashMap::new).insert((tables, addr), G { armed: true, parked: false, open: false, notify: Arc::new(tokio::sync::Notify::new()) });
+    }
+    pub(crate) fn parked(tables: usize, addr: IpAddr) -> bool {
+        GATES.lock().unwrap().as_ref().and_then(|m| m.get(&(tables, addr))).is_some_and(|e| e.parked)
+    }
+    pub(crate) fn release(tables: usize, addr: IpAddr) {
+        let mut g = GATES.lock().unwrap();
+        if let Some(e) = g.as_mut().and_then(|m| m.get_mut(&(tables, addr))) {
+            e.open = true;
+            e.armed = false;
+            e.notify.notify_one();
+        }
+    }
+    pub(crate) fn forget(tables: usize, addr: IpAddr) {
+        if let Some(m) = GATES.lock().unwrap().as_mut() {
+            m.remove(&(tables, addr));
+        }
+    }
+    pub(crate) async fn pass(tables: usize, addr: IpAddr) {
+        let n = {
+            let mut g = GATES.lock().unwrap();
+            match g.as_mut().and_then(|m| m.get_mut(&(tables, addr))) {
+                Some(e) if e.armed => {
+                    e.armed = false;
+                    e.parked = true;
+                    e.notify.clone()
+                }
+                _ => return,
+            }
+        };
+        loop {
+            if GATES.lock().unwrap().as_ref().and_then(|m| m.get(&(tables, addr))).is_none_or(|e| e.open) {
+                break;
+            }
+            n.notified().await;
+        }
+        forget(tables, addr);
+    }
+}
+
 #[allow(dead_code, unused_imports, clippy::all)]
 pub(crate) mod c17 {
     include!(concat!(env!("OSRG_RUSTYBGP_VERIF_DIR"), "/hd/c17.rs"));
